@@ -19,6 +19,7 @@ func extra(repo, out string, root, helpers *pkgFiles) {
 	if root != nil {
 		genReflect(out, root, irefl)
 		genEntryFacts(out, root)
+		genCacheFacts(out, root)
 	}
 }
 
@@ -324,4 +325,44 @@ func nodeText(p *pkgFiles, n ast.Node) string {
 		return ""
 	}
 	return string(b[start.Offset:end.Offset])
+}
+
+// genCacheFacts: the hit condition of loadCachedWithFrontMatter.
+func genCacheFacts(out string, root *pkgFiles) {
+	var sb strings.Builder
+	sb.WriteString("namespace Vuego.Generated\n\n")
+	defer func() {
+		sb.WriteString("\nend Vuego.Generated\n")
+		writeFile(out, "CacheFacts.lean", sb.String())
+	}()
+	fd := root.method("Vue", "loadCachedWithFrontMatter")
+	if fd == nil {
+		fail("loadCachedWithFrontMatter", fmt.Errorf("method not found"))
+		return
+	}
+	cond := ""
+	ast.Inspect(fd.Body, func(n ast.Node) bool {
+		if ifs, ok := n.(*ast.IfStmt); ok && cond == "" {
+			c := normExpr(ifs.Cond)
+			if strings.Contains(c, "cached.modTime.Equal(currentModTime)") {
+				cond = c
+			}
+		}
+		return true
+	})
+	rep.Facts["cache.hitCondition"] = cond
+	switch cond {
+	case "(ok)&&((currentModTime.IsZero())||(cached.modTime.Equal(currentModTime)))":
+		sb.WriteString("def cacheStatFailureIsMiss : Bool := false\n")
+	case "((ok)&&(!statFailed))&&((currentModTime.IsZero())||(cached.modTime.Equal(currentModTime)))":
+		// statFailed must be set exactly when fs.Stat fails
+		src := nodeText(root, fd)
+		if !strings.Contains(src, "} else {") || !strings.Contains(src, "statFailed = true") {
+			fail("loadCachedWithFrontMatter", fmt.Errorf("statFailed is never set"))
+			return
+		}
+		sb.WriteString("def cacheStatFailureIsMiss : Bool := true\n")
+	default:
+		fail("loadCachedWithFrontMatter", fmt.Errorf("hit condition not recognised: %q", cond))
+	}
 }
